@@ -372,16 +372,130 @@ Definition check_lat (cs : latcase) : list (nat * N) :=
   let '(sizes, prec, ops) := cs in
   check_lat_from 0 sizes (if Z.eqb prec 0 then 1 else prec) (lat_new sizes prec) (LS [] []) ops.
 
+(** * Cache-level latency: a cache built WITH latency windows
+
+    One target.  The calls are Sync, single-update GnmiUpdate, UpdateMetadata
+    and Reset under a controlled clock (cache.Now = latency.Now per call).
+    Observed per call: the result class, whether the call announced something,
+    and (after UpdateMetadata / Reset) the CURRENT values of the latency
+    statistics in Metadata() per window ([None] = unset).
+
+    Model (tag 1): CacheModel's ingest path records in [t_lat] the timestamps
+    it hands to [lat.Compute] (the two call sites at the end of the accept
+    paths of gnmiUpdate: announced update of an existing leaf, new leaf; not
+    suppressed, not refused, not metadata, only when synced); they are fed, with
+    the call's clock, into LatencyModel; UpdateMetadata / Reset run
+    [lat_update]; a statistic keeps its last written value (SetInt is skipped
+    for 0), Reset unsets all of them first (ResetAction of a non-InitZero int).
+
+    K_P (tag 6), from the implementation's own answers only -- reading fixed by
+    the coordinator: the latencies "observed" in a window are those of the
+    ACCEPTED (announced) post-sync non-metadata updates; suppressed updates are
+    not samples (HEAD returns before Compute), refused ones (stale, future,
+    collision) neither: every statistic whose exported value CHANGED at a
+    refresh lies within the bounds of the accepted samples of the batches closed
+    after [now - window] (average within the precision). *)
+
+Definition clobs := (rcls * bool * list wstats)%type.
+Definition clatcase := (config * string * list Z * Z * list (mop * clobs))%type.
+
+Definition op_now (o : mop) : Z :=
+  match o with
+  | MUpd now _ | MReset now _ | MRemove now _ | MSync now _ | MConnect now _
+  | MConnectError now _ _ | MUpdateMeta now | MSubWalk now _ _ => now
+  | _ => 0
+  end.
+
+Definition lat_tape (c : cache) (t : string) : list Z :=
+  match assoc t (c_targets c) with Some x => t_lat x | None => [] end.
+
+Definition merge_stat (cur new : option Z) : option Z := match new with Some v => Some v | None => cur end.
+
+Definition merge_ws (cur : wstats) (w : option wstats) : wstats :=
+  match w with
+  | None => cur
+  | Some n => WS (merge_stat (ws_avg cur) (ws_avg n)) (merge_stat (ws_max cur) (ws_max n))
+                 (merge_stat (ws_min cur) (ws_min n))
+  end.
+
+Definition ws_none : wstats := WS None None None.
+
+Definition is_refresh (o : mop) : bool :=
+  match o with MUpdateMeta _ | MReset _ _ => true | _ => false end.
+
+(** a statistic that changed must be within the bounds *)
+Definition changed_within (S : list Z) (p : Z) (strict : bool) (prev cur : option Z) : bool :=
+  if oz_eqb prev cur then true
+  else match cur with
+       | None => true
+       | Some v =>
+           match zmin_list S, zmax_list S with
+           | Some lo, Some hi => within lo hi (if strict then p else 0) (Some v)
+           | _, _ => false
+           end
+       end.
+
+Definition kp_clat_window (S : list Z) (p : Z) (prev cur : wstats) : bool :=
+  changed_within S p false (ws_max prev) (ws_max cur) &&
+  changed_within S p false (ws_min prev) (ws_min cur) &&
+  changed_within S p true (ws_avg prev) (ws_avg cur).
+
+Fixpoint check_clat_from (i : nat) (t : string) (sizes : list Z) (p : Z)
+  (c : cache) (l : lat) (cur : list wstats)
+  (sp : lspec) (synced : bool) (prev : list wstats)
+  (ops : list (mop * clobs)) : list (nat * N) :=
+  match ops with
+  | [] => []
+  | (o, (res, fed, obs)) :: ops' =>
+      let now := op_now o in
+      let '(c', r, f) := cstep c o in
+      (* model side *)
+      let before := lat_tape c t in
+      let after := lat_tape c' t in
+      let fresh := if is_refresh o then []
+                   else rev (firstn (List.length after - List.length before) after) in
+      let l1 := fold_left (fun l ts => lat_compute l now ts) fresh l in
+      let '(l2, outs) := if is_refresh o then lat_update l1 now false else (l1, []) in
+      let base := match o with MReset _ _ => map (fun _ => ws_none) cur | _ => cur end in
+      let cur' := if is_refresh o then map (fun x => merge_ws (fst x) (snd x)) (combine base outs) else cur in
+      let m_fed := match o with MUpd _ _ => negb (is_nil (mfeed_list f)) | _ => fed end in
+      let v1 := if rcls_eqb r res && Bool.eqb m_fed fed &&
+                   (is_nil obs || list_eqb wstats_eqb cur' obs) then [] else [(i, 1%N)] in
+      (* specification side *)
+      let synced' := match o with MSync _ _ => true | MReset _ _ => false | _ => synced end in
+      let sp1 := match o with
+                 | MUpd _ n =>
+                     if synced && rcls_eqb res ROk && fed then LS (ls_cur sp ++ [now - n_ts n]) (ls_batches sp) else sp
+                 | _ => sp
+                 end in
+      let sp2 := if is_refresh o then ls_step sp1 (LUpdate now) else sp1 in
+      let v6 := if is_refresh o && negb (is_nil obs) then
+                  if forallb (fun x => kp_clat_window (retained sp2 now (fst x)) p (fst (snd x)) (snd (snd x)))
+                             (combine sizes (combine prev obs))
+                  then [] else [(i, 6%N)]
+                else [] in
+      let prev' := if is_nil obs then prev else obs in
+      v1 ++ v6 ++ check_clat_from (S i) t sizes p c' l2 cur' sp2 synced' prev' ops'
+  end.
+
+Definition check_clat (cs : clatcase) : list (nat * N) :=
+  let '(cfg, t, sizes, prec, ops) := cs in
+  let none := map (fun _ => ws_none) sizes in
+  check_clat_from 0 t sizes (if Z.eqb prec 0 then 1 else prec)
+    (new_cache cfg [t]) (lat_new sizes prec) none (LS [] []) false none ops.
+
 (** * Cases *)
 
 Inductive c15case :=
 | CCache (c : mcase)
-| CLat (c : latcase).
+| CLat (c : latcase)
+| CCacheLat (c : clatcase).
 
 Definition check_case15 (c : c15case) : list (nat * N) :=
   match c with
   | CCache m => check_cache m
   | CLat l => check_lat l
+  | CCacheLat l => check_clat l
   end.
 
 Fixpoint check_all_from15 (i : nat) (cs : list c15case) : list (nat * nat * N) :=
@@ -395,3 +509,4 @@ Definition check_all15 (cs : list c15case) : list (nat * nat * N) := check_all_f
 (** monomorphic constructors for the generated files *)
 Definition LSTEP (o : lop) (ob : lobs) : lop * lobs := (o, ob).
 Definition WSo (a b c : option Z) : option wstats := Some (WS a b c).
+Definition CLSTEP (o : mop) (r : rcls) (fed : bool) (st : list wstats) : mop * clobs := (o, (r, fed, st)).
